@@ -7,7 +7,7 @@ from ..fold import Folder, Record, EnumMember, Ref, is_unknown, single_return_ex
 from ..absint import Interp, Hooks, State, K, Sym, Obj, Exc, NONE, ListVal
 from ..report import Check
 from .. import util
-from .common import ForkHooks, labels_of
+from .common import ForkHooks, labels_of, suite_reading_method
 
 P = 'exactly_lib.processing.processors'
 EXECUTOR_MOD = 'exactly_lib.execution.partial_execution.impl.executor'
@@ -326,17 +326,37 @@ def clause_d(c: Check):
     ix, fo = c.ix, c.fo
     rs = ix.func(SFR + ':resolve_test_case_handling_setup')
     rf = ix.func(SFR + ':resolve_handling_setup_from_suite_file')
+    # who may derive a handling setup from a suite: the hierarchy reader (any method of it - the rule is about the
+    # route, not about the name of the method) and the standalone route
+    reader_cls = ix.cls(SHR + ':_SingleFileReader')
     allowed = {
-        rs.key: {SHR + ':_SingleFileReader.__call__', rf.key},
-        rf.key: {AR + ':AccessorResolver._handling_setup'},
+        rs.key: lambda s: s.where == rf.key or (s.func is not None and s.func.cls is reader_cls),
+        rf.key: lambda s: s.where == AR + ':AccessorResolver._handling_setup',
     }
+    floors = {rs.key: 2, rf.key: 1}
     for target in (rs, rf):
         sites = [s for s in util.references_to(ix, target) if not isinstance(parent(s.node), (ast.Import, ast.ImportFrom))]
         for s in sites:
-            c.expect(s.where in allowed[target.key], 'C17-d', 'who-may-call/%s@%s' % (target.name, s.where),
+            c.expect(allowed[target.key](s), 'C17-d', 'who-may-call/%s@%s' % (target.name, s.where),
                      '%s is used from %s: suite contents would be derived differently for that route' % (
                          target.name, s.where), s.loc)
-        c.floor('C17-d', 'uses of ' + target.name, len(sites), len(allowed[target.key]))
+        c.floor('C17-d', 'uses of ' + target.name, len(sites), floors[target.key])
+    # every suite of a hierarchy is resolved against the DEFAULT handling setup of the reading environment - never
+    # against the setup resolved for the enclosing suite (suite contents do not reach the cases of sub-suites)
+    n_sites = 0
+    for s in util.call_sites_of(ix, rs):
+        if s.func is None or s.func.cls is not reader_cls:
+            continue
+        n_sites += 1
+        b = util.bound_call_args(rs, s.node, skip_first=False)
+        c.require(b is not None and rs.positional_params()[1].arg in b,
+                  'C17-d: the arguments of %s at %s are not understood' % (rs.name, s.loc))
+        bad = _not_the_default_setup(ix, s.func, b[rs.positional_params()[1].arg], 0, set())
+        c.expect(bad is None, 'C17-d', 'hierarchy-reader/%s/resolved-against-the-default-setup' % s.func.name,
+                 'a suite of the hierarchy is resolved against %s, not against the default handling setup of the '
+                 'reading environment: the contents of an enclosing suite reach the cases of its sub-suites' % bad,
+                 s.loc)
+    c.floor('C17-d', 'suite resolutions in the hierarchy reader', n_sites, 1)
     # rf reads the suite and resolves with rs
     ok = False
     for call, d in util.calls_in(ix, rf):
@@ -389,6 +409,46 @@ def clause_d(c: Check):
                                            sorted(outs), want), hs.loc())
 
 
+def _not_the_default_setup(ix, f: FuncDef, expr, depth: int, seen: set) -> Optional[str]:
+    """None when every value `expr` can stand for in f is the reading environment's default handling setup (an
+    attribute path ending in `default_test_case_handling_setup`, or a parameter that receives only such values at
+    every call of f inside its class); otherwise a description of the offending value"""
+    if depth > 4:
+        return 'a value passed through more than 4 calls'
+    if isinstance(expr, ast.Attribute):
+        return None if expr.attr == 'default_test_case_handling_setup' else '`%s`' % unparse(expr)
+    if not isinstance(expr, ast.Name):
+        return '`%s`' % unparse(expr)
+    bs = f.local_bindings().get(expr.id, [])
+    if not bs:
+        return '`%s`' % expr.id
+    for b in bs:
+        if b[0] in ('assign', 'annassign') and b[1] is not None:
+            r = _not_the_default_setup(ix, f, b[1], depth + 1, seen)
+            if r is not None:
+                return r + ' (bound to `%s` in %s)' % (expr.id, f.name)
+        elif b[0] == 'param':
+            if (f.key, expr.id) in seen:
+                continue
+            seen.add((f.key, expr.id))
+            sites = [s for s in util.references_to(ix, f) if not isinstance(parent(s.node), (ast.Import, ast.ImportFrom))]
+            if not sites:
+                return 'parameter `%s` of %s (no call found)' % (expr.id, f.name)
+            for s in sites:
+                call = parent(s.node)
+                if not (isinstance(call, ast.Call) and call.func is s.node) or s.func is None:
+                    return 'parameter `%s` of %s, which is handed on as a value at %s' % (expr.id, f.name, s.loc)
+                ba = util.bound_call_args(f, call, skip_first=f.cls is not None and not f.is_static)
+                if ba is None or expr.id not in ba:
+                    return 'parameter `%s` of %s (call at %s not understood)' % (expr.id, f.name, s.loc)
+                r = _not_the_default_setup(ix, s.func, ba[expr.id], depth + 1, seen)
+                if r is not None:
+                    return r + ' (argument `%s` at %s)' % (expr.id, s.loc)
+        else:
+            return '`%s` bound by %s' % (expr.id, b[0])
+    return None
+
+
 def _mentions_default(v) -> bool:
     seen = 0
     stack = [v]
@@ -431,12 +491,12 @@ def clause_e(c: Check):
     c.expect(ok, 'C17-e', '_process_single_sub_suite/processor-of-this-suite',
              'the case processor is not built for the suite whose cases are iterated', ps.loc())
     # reading: each suite's handling setup is resolved from its own document and the *default* environment
-    call_m = ix.func(SHR + ':_SingleFileReader.__call__')
+    call_m = suite_reading_method(ix, c.require)
     rs = ix.func(SFR + ':resolve_test_case_handling_setup')
     ok = False
     for call, d in util.calls_in(ix, call_m):
         if d == rs and len(call.args) == 2:
-            ok = unparse(call.args[1]) == 'self.environment.default_test_case_handling_setup'
+            ok = _not_the_default_setup(ix, call_m, call.args[1], 0, set()) is None
             doc = unparse(call.args[0])
             b = call_m.local_bindings().get(doc, [])
             ok = ok and any(x[0] == 'assign' and isinstance(x[1], ast.Call)
